@@ -1578,7 +1578,12 @@ class CommandTask : public Task {
       // Execute the command, with notifications to the delegate.
       command.execute(getBuildSystem(ti).getBuildSystem(), ti, context, [ti](BuildValue&& result) mutable {
         // Inform the engine of the result.
-        if (result.isFailedCommand()) {
+        //
+        // A command which ended cancelled although the build was not being
+        // cancelled (its process was killed from the outside) did not do its
+        // work either: report it, or the build would be declared successful.
+        if (result.isFailedCommand() ||
+            (result.isCancelledCommand() && !ti.isCancelled())) {
           getBuildSystem(ti).getDelegate().hadCommandFailure();
         }
         ti.complete(result.toData());
